@@ -433,7 +433,7 @@ class ExpFlowModule:
     negate the scale exactly once; inverse() leaves the module it was called on as it was."""
 
     target = "deepali.modules.flow:ExpFlow.forward"
-    properties = ("C11", "C15")
+    properties = ("C11", "C15", "C07")
 
     def cases(self, tier):
         for ac in (True, False):
